@@ -20,7 +20,8 @@ def withBal (m : Store) (a : Addr) : Option Nat → Store
 
 def c07 (ws : List String) : String :=
   match ws with
-  | [prices, units1, units2, _r2, maxU, sponsor, bal, maxFee, tsoff, scope, actions] =>
+  | [prices, units1, units2, _r2, maxU, sponsor, bal, maxFee, tsoff, scope, actions, dup, authok] =>
+    if (dup != "0" && dup != "1") || (authok != "0" && authok != "1") then "bad-op" else
     match parseDims prices, parseDims units1, parseDims units2, parseDims maxU, parseHex sponsor,
       parseNat maxFee, parseInt tsoff, parseScope scope, parseActions actions, parseBal bal with
     | some prices, some units1, some units2, some maxU, some sponsor, some maxFee, some tsoff,
@@ -30,15 +31,18 @@ def c07 (ws : List String) : String :=
         { sponsor, actions, units := some u, maxFee, chainID := rules.chainID, timestamp := tsoff }
       let sc := scopeOf scope [(h.key sponsor, permWrite)]
       let cur : Store := withBal (fun _ => none) sponsor balv
-      let adm := match preExecute rules h prices (mk units1) { cur, scope := sc } 0 with
+      let adm := match admitOutcome rules h prices 0 sc (dup == "1") (authok == "1") (mk units1) cur with
         | none => "ok"
         | some e => "err:" ++ e.name
-      let proc := match processorAccepts rules h prices 0 sc zero maxU (mk units2) cur with
-        | some r => s!"ok:{r.fee}"
-        | none => "err"
-      let build := match builderIncludes rules h prices 0 sc zero maxU (mk units2) cur with
-        | some r => s!"inc:{r.fee}"
-        | none => "skip"
+      if dup == "1" || authok == "0" then s!"adm={adm} proc=na build=na" else
+      let proc := match processorOutcome rules h prices 0 sc zero maxU (mk units2) cur with
+        | .ok (_, _, r) => s!"ok:{r.fee}"
+        | .error e => "err:" ++ e.name
+      let build := match builderAbort rules h prices 0 (sc, mk units2) ({ parent := cur }, zero) with
+        | some e => "abort:" ++ e.name
+        | none => match builderIncludes rules h prices 0 sc zero maxU (mk units2) cur with
+          | some r => s!"inc:{r.fee}"
+          | none => "skip"
       s!"adm={adm} proc={proc} build={build}"
     | _, _, _, _, _, _, _, _, _, _ => "bad-op"
   | _ => "bad-op"
@@ -67,7 +71,9 @@ def blk (ws : List String) : String :=
     | some prices, some maxU, some b1, some b2, some txs =>
       if txs.isEmpty then "bad-op" else
       let parent := withBal (withBal (fun _ => none) (addr 1) b1) (addr 2) b2
-      let out := builderBlock rules h prices 0 maxU txs ({ parent }, zero)
+      match builderBlock rules h prices 0 maxU txs ({ parent }, zero) with
+      | .error e => "abort:" ++ e.name
+      | .ok out =>
       let inc := out.2.map fun o => if o.isSome then "1" else "0"
       let fs := out.2.map fun o => match o with | some r => toString r.fee | none => "-"
       let vis := out.1.1.visible
